@@ -226,6 +226,52 @@ def run(ctx):
                 zbad = zbad or "a swap of amount zero succeeds with a non-zero limit on the receiving side: the trader receives 0 < limit"
         ctx.inst("R17.3", "limit-on-zero-amount:%s" % xvar, zbad is None and zn > 0, xa.fn.where(),
                  zbad or "%d zero-amount success paths: limit zero, or the trader is on the owing side (0 <= limit)" % zn)
+        # ... and the other way round (availability): a swap of amount zero with NO limit is never refused, whichever the
+        # direction - for each direction some zero-amount success alternative is consistent with (limit == 0, that direction)
+        # (blind sweep: `!limit.is_zero() || direction == RemoveFromAmm` refused every zero-amount swap on the owing side)
+        def consistent(fs, want_dir):
+            for (at, o) in fs:
+                a2 = ix.inline(at)
+                if tag(a2) != "op":
+                    continue
+                nm = payload(a2)[0]
+                ks = kids(a2)
+                if nm == "is_zero" and ks[0] == lim and o is False:
+                    return False
+                if nm in ("lt", "gt", "le", "ge") and len(ks) == 2 and o in (True, False):
+                    zero_l = tag(ks[0]) == "int" and int(payload(ks[0])[0]) == 0
+                    zero_r = tag(ks[1]) == "int" and int(payload(ks[1])[0]) == 0
+                    if zero_l and ks[1] == lim and ((nm == "lt" and o is True) or (nm == "ge" and o is False)):
+                        return False
+                    if zero_r and ks[0] == lim and ((nm == "gt" and o is True) or (nm == "le" and o is False)):
+                        return False
+                if nm == "discr" and ks[0] == d and isinstance(o, tuple):
+                    if o[0] == "variant" and o[1] != want_dir:
+                        return False
+                    if o[0] == "other" and want_dir in o[1]:
+                        return False
+                if nm in ("eq", "ne") and len(ks) == 2 and o in (True, False):
+                    for u, v in ((ks[0], ks[1]), (ks[1], ks[0])):
+                        if u == d and tag(v) == "agg" and not kids(v):
+                            same = (nm == "eq") == o
+                            var = payload(v)[1]
+                            if (same and var != want_dir) or ((not same) and var == want_dir):
+                                return False
+            return True
+        avail = {}
+        for q in xa.ok_paths():
+            if any(e.target is not None and e.target.pretty in xt and N(ix, xa.c(sym.unwrap(e.result))) != ("int", 0) for e in q.events):
+                if not any(tag(xa.s(at)) == "op" and payload(xa.s(at))[0] == "is_zero" and kids(xa.s(at))[0] == xa.msgfield(xamt) and o is True for (at, o, _b, _l) in q.conds):
+                    continue
+            for alt in guards.facts_dnf(ix, q):
+                fs_ = [(xa.c(a_), o_) for (a_, o_) in alt]
+                for wd in ("AddToAmm", "RemoveFromAmm"):
+                    if consistent(fs_, wd):
+                        avail[wd] = True
+        missing = [wd for wd in ("AddToAmm", "RemoveFromAmm") if not avail.get(wd)]
+        ctx.inst("R17.3", "zero-amount-no-limit-available:%s" % xvar, not missing, xa.fn.where(),
+                 "a zero-amount swap without a limit succeeds in both directions" if not missing else
+                 "no success path for a zero-amount swap with limit 0 and direction %s: wrongly refused" % missing)
         # strictness: rejecting paths reject only on strict violation
         strict_bad = None
         for p in ix.paths(xa.fn):
